@@ -119,11 +119,11 @@ func c12CheckRef(m vfshared.Method, req, resp, refReq, refResp proto.Message, re
 	respMap := vfInvert(reqMap)
 	ti := NewTranslationInterceptor(vfNoopLogger(), []Translator{NewNamespaceNameTranslator(vfNoopLogger(), reqMap, respMap)})
 	wantReq, wantResp := proto.Clone(refReq), proto.Clone(refResp)
-	rr := &vfshared.RefTranslator{NS: reqMap}
+	rr := &vfshared.RefTranslator{NS: reqMap, TolerateUndecodable: true}
 	if _, err := rr.Translate(wantReq.ProtoReflect()); err != nil {
 		return fmt.Errorf("HARNESS: reference failed on request: %v", err)
 	}
-	rs := &vfshared.RefTranslator{NS: respMap}
+	rs := &vfshared.RefTranslator{NS: respMap, TolerateUndecodable: true}
 	if _, err := rs.Translate(wantResp.ProtoReflect()); err != nil {
 		return fmt.Errorf("HARNESS: reference failed on response: %v", err)
 	}
@@ -423,9 +423,9 @@ func c12RunRand(c c12RandCase) (nsFields int, err error) {
 	if err := proto.Unmarshal(c.Resp, resp); err != nil {
 		return 0, fmt.Errorf("HARNESS: %v", err)
 	}
-	probe := &vfshared.RefTranslator{NS: c.Mapping}
+	probe := &vfshared.RefTranslator{NS: c.Mapping, TolerateUndecodable: true}
 	_, _ = probe.Translate(proto.Clone(req).ProtoReflect())
-	probe2 := &vfshared.RefTranslator{NS: vfInvert(c.Mapping)}
+	probe2 := &vfshared.RefTranslator{NS: vfInvert(c.Mapping), TolerateUndecodable: true}
 	_, _ = probe2.Translate(proto.Clone(resp).ProtoReflect())
 	return probe.NSHits + probe2.NSHits, c12Check(m, req, resp, c.Mapping)
 }
@@ -455,6 +455,13 @@ func TestVF_C12_Random(t *testing.T) {
 		mapping := c12GenMapping(rt)
 		req := vfshared.Populate(rt, m.In, c12PopCfg(mapping, false))
 		resp := vfshared.Populate(rt, m.Out, c12PopCfg(mapping, true))
+		garbage := 0
+		if rapid.IntRange(0, 4).Draw(rt, "garbageBlob") == 0 {
+			// a batch that cannot be decoded sits in the lists of event blobs (legacy data with invalid UTF-8 outside
+			// failure messages, an unknown encoding): everything else in the message is still to be translated
+			pos := rapid.IntRange(0, 3).Draw(rt, "garbagePos")
+			garbage = vfshared.AddGarbageListBlobs(req.ProtoReflect(), pos) + vfshared.AddGarbageListBlobs(resp.ProtoReflect(), pos)
+		}
 		c := c12RandCase{Method: m.FullMethod, Mapping: mapping, Req: vfMarshal(req), Resp: vfMarshal(resp), ReqTxt: prototext.Format(req), RespTxt: prototext.Format(resp)}
 		n, err := c12RunRand(c)
 		if err != nil {
@@ -463,6 +470,9 @@ func TestVF_C12_Random(t *testing.T) {
 		var cl []string
 		if n > 0 {
 			cl = append(cl, "has_mapped_name")
+		}
+		if garbage > 0 {
+			cl = append(cl, "undecodable_batch_among_the_event_blobs")
 		}
 		st.Case(vfshared.Fingerprint(c.Method, string(c.Req), string(c.Resp), fmt.Sprint(mapping)), n >= 2, cl...)
 		if n >= 2 && st.WantSample() {
